@@ -39,6 +39,7 @@ let () = Reg.register "c19.recover" (fun inp out ->
     let nsyms = Z.add gtm.Cfg.g_terms gtm.Cfg.g_nonterms in
     if not (RedTerm.check_range m nstates nterms nsyms) then verdict := "bad:tables-mention-states-or-symbols-outside-their-range"
     else if not (RedTerm.check_redterm m nstates nterms nsyms redterm_fuel) then verdict := "bad:reduction-sequences-not-bounded(check_redterm)"
+    else if not (RedTerm.check_eoi m nstates (Stdlib.List.nth finals 0)) then verdict := "bad:end-of-input-shifted-outside-the-end-state"
     else if not (let e = get_z errsym in Z.compare e Z0 <> Lt && Z.compare e nsyms = Lt) then verdict := "bad:error-symbol-outside-the-tables"
     (* gotoState(-1, errSymbol) = -1: evaluated for the default encoding; with optimized tables the generated
        gotoState indexes tmAction[-1] (a panic the model does not reproduce), so the premise is not claimed there *)
